@@ -163,6 +163,27 @@ pub fn gen_40(r: &mut Rng) -> (u64, &'static str) {
             reserved = Some(*r.pick(&[40u32, 41, 42, 43, 44, 45, 46, 47, 52, 53]));
             what = "4,0 reserved bit set";
         }
+        3 | 4 => {
+            // sparse / boundary registers: single-bit field values, extremes, optional groups absent. These are the
+            // MB fields most likely to be mistaken for another register (few bits set) and the classic boundary class.
+            let bv = |r: &mut Rng| -> u32 {
+                match r.below(4) {
+                    0 => 1u32 << r.below(12),
+                    1 => 4095,
+                    2 => 1,
+                    _ => 1 + r.below(4095) as u32,
+                }
+            };
+            mcp = bv(r);
+            fms = bv(r);
+            baro = bv(r);
+            let mode_grp = r.chance(1, 2);
+            let src_grp = r.chance(2, 3);
+            st[3] = mode_grp;
+            st[4] = src_grp;
+            let mb = enc_40(mcp, fms, baro, if mode_grp { modes } else { 0 }, if src_grp { src } else { 0 }, st);
+            return (mb, "4,0 sparse/boundary values");
+        }
         _ => {}
     }
     let mut mb = enc_40(mcp, fms, baro, modes, src, st);
@@ -428,8 +449,25 @@ pub fn judge_commb(opts: &Opts, gate: &Gate, mb: u64, before: &Row, after: &Row)
     let field = |which: &Row, name: &str| -> String {
         if std::ptr::eq(which, before) { rb.get(name).to_string() } else { ra.get(name).to_string() }
     };
-    let changed: Vec<&str> = PARAMS.iter().copied().filter(|p| rb.get(p) != ra.get(p)).collect();
     let addr = before.icao;
+    let changed: Vec<&str> = PARAMS.iter().copied().filter(|p| rb.get(p) != ra.get(p)).collect();
+    // ---- the advertisement record itself: what the aircraft is recorded to advertise (and with it the gating of every
+    // later reply) may change only on an MB field that has the shape of a BDS 1,7 report under every reading
+    // (2,0 bit set, bits 29..56 zero). A data register mistaken for a 1,7 report silently closes or opens gates.
+    if (rb.get("cap_bds") != ra.get("cap_bds") || rb.get("cap_flags") != ra.get("cap_flags")) && !weak_17(mb) {
+        return Err((
+            "commb-advertisement-changed-by-non-report".into(),
+            format!(
+                "MB {:014X} is not a BDS 1,7 report (needs bit 7 set and bits 29..56 zero) but the recorded advertisement changed: cap_bds {} -> {}, cap_flags {} -> {}",
+                mb,
+                field(before, "cap_bds"),
+                field(after, "cap_bds"),
+                field(before, "cap_flags"),
+                field(after, "cap_flags")
+            ),
+            vec![format!("expect {:06X} cap_bds {}", addr, field(before, "cap_bds")), format!("expect {:06X} cap_flags {}", addr, field(before, "cap_flags"))],
+        ));
+    }
     // ---- "only if"
     if !changed.is_empty() {
         let mut explained = None;
